@@ -150,6 +150,9 @@ def check_instance(ctx, f, inst):
         else:
             names.append(s)
     want = expected_calls(inst)
+    # `.map(|()| metric)` and the same written as a match are the same expansion: the combinator itself is not counted (F4 checks what is returned)
+    names = [n_ for n_ in names if n_ != "Result::map"]
+    want = [n_ for n_ in want if n_ != "Result::map"]
     ctx.ob("F1", key + "|calls", sorted(names) == sorted(want),
            "%s!(%s): the expansion must consist of exactly the calls %s (found %s)" % (inst["macro"], ", ".join(inst["args"]), sorted(want), sorted(names)), site=b.raw["span"]["at"])
     if sorted(names) != sorted(want):
@@ -219,6 +222,16 @@ def check_instance(ctx, f, inst):
             okret = a[0] == "agg" and a[1] == "closure" and len(a[3]) == 1 and peel(a[3][0], transparent=[]) == metric_t
             cl = f.closure(a[2]) if okret else None
             okret = okret and cl is not None and peel(cl.term_local(0), transparent=[]) == ("field", P(1), "0") and not cl.calls()
+        if not mp:
+            # match register(..) { Ok(()) => Ok(metric), Err(e) => Err(e) }
+            alts = b.var_alts(r[1]) if (isinstance(r, tuple) and len(r) == 2 and r[0] == "var") else []
+            oks = [a_ for a_ in alts if a_[0] == "agg" and a_[2].endswith("Result::Ok")]
+            ers = [a_ for a_ in alts if a_[0] == "agg" and a_[2].endswith("Result::Err")]
+            okret = len(oks) == 1 and len(ers) == 1 and len(alts) == 2 and peel(oks[0][3][0], transparent=[]) == metric_t \
+                and peel(ers[0][3][0], transparent=[]) == ("field", ("downcast", rc.result_term(), "Err"), "0")
+            if okret:
+                sw = [bi for bi in b.reachable_blocks() if (lambda si_: si_ and si_[0][0] == "discr" and peel(si_[0][1], transparent=[]) == rc.result_term())(b.switch_info(bi))]
+                okret = len(sw) == 1
         ok &= ctx.ob("F4", key + "|returns-registered-handle", okret,
                      "the macro must evaluate to register(..).map(|()| metric): Err when the registration is refused, otherwise the very metric that was registered")
     else:
